@@ -213,9 +213,9 @@ def sig_names(sig):
     return list(sig.get('req', [])) + [n for n, _ in sig.get('opt', [])]
 
 
-def result_of(c, mode):
-    """deterministic, equality-respecting result for canonical bound args c"""
-    h = int(hashlib.md5(repr(c).encode()).hexdigest()[:8], 16)
+def result_of(c, mode, salt=''):
+    """deterministic, equality-respecting result for canonical bound args c (salt: another function of the same arguments)"""
+    h = int(hashlib.md5((repr(c) + salt).encode()).hexdigest()[:8], 16)
     if mode == 'str':
         return 'r%06x' % (h % (1 << 24))
     sel = h % 8
@@ -239,9 +239,10 @@ def result_of(c, mode):
 class Fn(object):
     """a generated deterministic function + its reference twin + evaluation log"""
 
-    def __init__(self, sig, mode='str', raising=None, typed_top=False):
+    def __init__(self, sig, mode='str', raising=None, typed_top=False, salt=''):
         self.sig = sig
         self.mode = mode
+        self.salt = salt
         # with a typed keymap 1, 1.0 and True are DIFFERENT arguments at top level (klepto promises separate entries), so the generated
         # function may (and does) return different results for them; with an untyped keymap it must not (raw keys merge them legitimately)
         self.typed_top = typed_top
@@ -285,14 +286,14 @@ class Fn(object):
         exc = self.raising.get(c)
         if exc is not None:
             raise exc
-        return result_of(c, self.mode)
+        return result_of(c, self.mode, self.salt)
 
     def _ref_body(self, named, va, vk):
         c = self._canon(named, va, vk)
         exc = self.raising.get(c)
         if exc is not None:
             raise exc
-        return result_of(c, self.mode)
+        return result_of(c, self.mode, self.salt)
 
 
 def spell(sig, binding, form):
@@ -564,6 +565,9 @@ def apply_op(sess, op, trace, observe=True, prev=None):
             target = sess.root if not op[1] else os.path.join(sess.root, 'elsewhere')
             os.makedirs(target, exist_ok=True)
             os.chdir(target)
+        elif kind == 'akeys':
+            # somebody lists the stored keys (no values read)
+            st.result = len(list(cache.archive.keys() if cache.archived() else cache.keys()))
         elif kind == 'arch_query':
             st.result = f.archived()
         elif kind == 'cache_get':
